@@ -733,7 +733,7 @@ static void space_paths(int scope, int len1, int len1Ref, int len2, int len2Ref,
                 Def d; d.kind = kind; d.sel = sel; d.fields = {f}; d.scope = scope; d.keyType = d.refType = T_INTEGER; d.vset = VSET_SMALL;
                 d.positions = {P_CHILD, P_IN_A, P_DEEP, P_S, P_PR};
                 d.maxLen = ref ? len1Ref : len1;
-                if (f == F_KORATK) { d.vset = VSET_TINY; d.positions = {P_CHILD, P_IN_A, P_PR}; }
+                if (f == F_KORATK) { d.vset = VSET_TINY; d.positions = {P_CHILD, P_IN_A, P_PR}; if (ref && len2Ref > 0) d.maxLen = std::min(d.maxLen, len2Ref); if (!ref) d.maxLen = std::min(d.maxLen, 2); }
                 add_def(d);
             }
             for (int f1 = 0; f1 < NFIELD; f1++) for (int f2 = 0; f2 < NFIELD; f2++) {
@@ -744,7 +744,7 @@ static void space_paths(int scope, int len1, int len1Ref, int len2, int len2Ref,
                 d.maxLen = ref ? len2Ref : len2;
                 if (d.maxLen <= 0) continue;
                 int ncar = 0; { Def t = d; build_def(t); ncar = (int)t.carriers.size(); }
-                if (ncar >= 3) d.positions = {P_CHILD, P_IN_A, P_PR};
+                if (ncar >= 3 || d.maxLen >= 2) d.positions = {P_CHILD, P_IN_A, P_PR};
                 add_def(d);
             }
         }
@@ -772,12 +772,12 @@ static void space_scopes(int lenRec, int lenRecRef, int lenUp) {
             for (int refFirst = 0; refFirst < (ref ? 2 : 1); refFirst++) {
                 Def d; d.kind = kind; d.sel = sel; d.fields = {f}; d.scope = SC_REC; d.keyType = d.refType = t; d.vset = VSET_SMALL; d.refFirst = refFirst;
                 d.maxLen = ref ? lenRecRef : lenRec;
-                if (sel == S_DESC_R) { d.positions = {P_CHILD, P_IN_A}; d.vset = VSET_TINY; }
+                if (sel == S_DESC_R) { d.positions = {P_CHILD, P_IN_A}; d.vset = VSET_TINY; d.maxLen = std::min(d.maxLen, 3); }
                 if (sel == S_DESC_R && ref) d.positions = {P_IN_A};
                 add_def(d);
                 if (ref) {
                     Def u = d; u.scope = SC_UP; u.maxLen = lenUp; u.vset = VSET_TINY;
-                    if (sel == S_DESC_R) u.positions = {P_IN_A};
+                    if (sel == S_DESC_R) { u.positions = {P_IN_A}; u.maxLen = std::min(u.maxLen, 3); }
                     add_def(u);
                 }
             }
@@ -793,6 +793,7 @@ static void space_growth(const std::vector<int>& ns, int len, bool all500) {
         for (int f : {F_ATK, F_K}) for (int n : ns) for (int place = 0; place < 3; place++) for (int scope : {SC_ROOT, SC_FLAT}) {
             if (scope == SC_FLAT && n != 50) continue;
             if (n >= 500 && !all500 && (place != 2 || f != F_ATK)) continue;
+            if (n >= 50 && n < 500 && !all500 && f != F_ATK && scope == SC_ROOT) continue;
             Def d; d.kind = kind; d.sel = S_R; d.fields = {f}; d.scope = scope; d.keyType = d.refType = t; d.vset = VSET_SMALL; d.maxLen = len;
             d.fillerN = n; d.fillerPlace = place;
             add_def(d);
@@ -857,7 +858,7 @@ int main(int argc, char** argv) {
     if (space == "values" || space == "root") {
         Lens L;
         bool root = space == "root";
-        L.core = N("core", root ? 2 : 3, root ? 3 : 4); L.ext = N("ext", root ? 1 : 2, root ? 1 : 3); L.nil = N("nil", root ? 2 : 3, root ? 3 : 4); L.small = N("small", 0, 0);
+        L.core = N("core", root ? 2 : 3, root ? 3 : 4); L.ext = N("ext", root ? 0 : 2, root ? 1 : 3); L.nil = N("nil", root ? 1 : 3, root ? 2 : 4); L.small = N("small", 0, 0);
         L.refCore = N("refcore", root ? 0 : 2, root ? 2 : 3); L.refExt = N("refext", root ? 0 : 2, root ? 1 : 2); L.refNil = N("refnil", root ? 0 : 2, root ? 2 : 3);
         L.refSmall = N("refsmall", root ? 2 : 3, root ? 2 : 4);
         L.twoCarriers = N("twocarriers", 2, 3);
